@@ -149,6 +149,33 @@ class Schemes:
                     n += 1
         return None
 
+    def joint_outcome_tplans(self, key, path):
+        """Along one path, steer ALL nuclear transitions at once: pattern name -> tplan (one deviate per transition, None = free).
+        Patterns: every transition to the same outcome (gamma / K / L / M / pair, where at least two transitions have it) and the
+        two alternations conversion-electron / gamma - the joint outcomes that code looking at two transitions together
+        (angular-correlation blocks, particle indices remembered across transitions) distinguishes."""
+        trs = []
+        for i in path:
+            for it in self.data[key]["edges"][i]["items"]:
+                if it[0] == "call" and it[1].startswith("nucltrans"):
+                    trs.append(self.transition_outcomes(it[1], it[2]))
+        if len(trs) < 2:
+            return {}
+
+        def mid(o, name):
+            return (o[name][0] + o[name][1]) / 2 if (o and name in o) else None
+        res = {}
+        for name in ("gamma", "K", "L", "M", "pair"):
+            tp = [mid(o, name) for o in trs]
+            if sum(1 for v in tp if v is not None) >= 2:
+                res["all-" + name] = tp
+        for tag, first in (("K-gamma", "K"), ("gamma-K", "gamma")):
+            other = "gamma" if first == "K" else "K"
+            tp = [mid(o, first if k % 2 == 0 else other) for k, o in enumerate(trs)]
+            if sum(1 for v in tp if v is not None) >= 2:
+                res["alt-" + tag] = tp
+        return res
+
     @staticmethod
     def transition_outcomes(prim, args):
         """outcome name -> deviate interval (lo, hi) of the primitive's first draw; None if an argument is not a literal"""
